@@ -34,6 +34,7 @@ FAIL_MSGS = (
     "cannot show invariant holds",
     "index out of bounds",
     "possible truncation",
+    "fails to satisfy `callee.requires",      # precondition of a closure / fn-pointer call (closure specs, C19)
 )
 
 
